@@ -4,9 +4,19 @@
 // Oracle (validity predicate per consumer, decoded by the reference RTMP chunk
 // reader / FLV / WebSocket parsers): see DESIGN.md §3 C01 (V1–V4).
 //
+// Generator dimensions added after audit 1 (gen/es.go options MsgSizeEdges,
+// MidMeta, MidHeaders, AscChurn, TsBack): whole-message payload lengths on
+// k*cs-1, k*cs, k*cs+1 for the negotiated and for lal's own (4096) chunk size,
+// audio as well as video; metadata (with / without @setDataFrame) and re-sent
+// sequence headers inside the stream, also while merge-write is on; equal and
+// backward timestamps, clock reset, the 2^32-1 wrap.  A consumer that waits for
+// a key frame is handed the headers published meanwhile: they count as part of
+// its start-up prologue (checkRunGreedy / explained).
+//
 // Deliberately NOT asserted here: which headers form the prologue and whether
 // the replayed GOPs are the right ones (C02); chunk formats / chunk sizes /
-// csids lal chooses; anything about a consumer whose transport is stalled (C15).
+// csids lal chooses; anything about a consumer whose transport is stalled (C15);
+// relay-push targets (C17).
 package c01
 
 import (
@@ -383,10 +393,10 @@ func expectsData(c Case, P *pub, cs Cons, itemToP []int) bool {
 		gop = c.FlvGop
 	}
 	if gop > 0 {
-		// a cached key frame releases it - unless a video sequence header followed that key frame: whether a re-sent
-		// header empties the cache is replay selection (C02), so nothing is demanded here in that case
+		// a cached key frame releases it - unless a video or AAC sequence header followed that key frame: whether a
+		// re-sent / changed header empties the cache is replay selection (C02), so nothing is demanded here in that case
 		for i := j - 1; i >= 0; i-- {
-			if P.kind[i] == "vsh" {
+			if P.kind[i] == "vsh" || P.kind[i] == "ash" {
 				break
 			}
 			if P.key[i] {
